@@ -92,6 +92,13 @@ def gen_case(rng: random.Random, tier: str) -> dict:
         files[f"zoq/q{i}.zoq"] = f"# S note W [[{n}]] O none\n#\n# SAVED QUERY GENERATED ON 2024-01-01 AT 12:00:00.\n\n- 230101#0{i} old result [[{n}]] " + " ".join(_link_words(rng, link_names)) + "\n"
     if rng.random() < 0.3:
         files["readme.md"] = "not a zorg file [[" + rng.choice(names) + "]]\n"
+    if rng.random() < 0.3:
+        # bystanders whose names nearly are .zo / .zot / .zoq files (editor backups, swap
+        # files, look-alike extensions): full of links, and no rename may touch a byte of them
+        for _ in range(rng.randint(1, 2)):
+            stem = rng.choice(names)
+            rel = rng.choice([stem + ".zo~", stem + ".zoo", stem + ".zo.bak", stem + ".zotx", stem + ".zoq1", stem + ".zo_", "x/" + stem.replace("/", "_") + ".zox"])
+            files[rel] = "# Backup " + " ".join([f"[[{n}]] [[{n}#sec]]" for n in rng.sample(link_names, k=min(3, len(link_names)))]) + "\n\n- 230101#2z kept " + " ".join(_link_words(rng, link_names)) + "\n"
     for rel in sorted(files):
         if rng.random() < 0.05:
             files[rel] = files[rel].replace("\n", "\r\n")  # Windows line ends must survive
